@@ -133,6 +133,12 @@ func (h *Hub) ServeHTTP(w http.ResponseWriter, r *http.Request) {
 	shipConnection.Run()
 
 	h.registerConnectionPreventingDouble(shipConnection, true)
+
+	// the user may have registered the service while this connection was already
+	// waiting for trust but was not registered yet, so the approval did not reach it
+	if h.IsRemoteServiceForSKIPaired(remoteService.SKI()) {
+		shipConnection.ApprovePendingHandshake()
+	}
 }
 
 // return if there is a connection for a SKI
